@@ -877,6 +877,46 @@ func RedeemGuard(p *core.Prog, r *core.Report) {
 	}
 	r.Count("redeem_result_sites", n)
 	r.Floor("redeem_result_sites", 25)
+	// the other direction, at the API boundary: the result an exported Validate method of an exported validator
+	// hands to its caller comes out of the pool only when result recycling is on (an unexported option that only
+	// the one-shot entry point sets, which releases the result itself). Taken from the pool on the other side of
+	// that test, the caller's result is marked as pooled: merging it into another result releases it while the
+	// caller still reads it, and the next validation refills it.
+	nMode := 0
+	for _, f := range p.Funcs {
+		if f.Parent() != nil || f.Name() != "Validate" || f.Signature.Recv() == nil || !p.InSubject(f) {
+			continue
+		}
+		rn := core.NamedOf(f.Signature.Recv().Type())
+		if rn == nil || !rn.Obj().Exported() {
+			continue
+		}
+		core.EachInstr(f, func(i ssa.Instruction) {
+			c, ok := i.(*ssa.Call)
+			if !ok {
+				return
+			}
+			g := core.StaticCallee(c)
+			if g == nil || !ra.resultBorrow[g] {
+				return
+			}
+			for _, cd := range core.ControlConds(c.Block()) {
+				pth, ok := core.StablePath(cd.Value)
+				if !ok || !strings.HasSuffix(pth, ".recycleResult") {
+					continue
+				}
+				nMode++
+				key := core.FuncName(f) + ":borrow-under-recycling"
+				if cd.Sense {
+					r.OK(rule, key, p.Pos(c.Pos()), "the result is taken from the pool only when result recycling is on")
+				} else {
+					r.Bad(rule, key, p.Pos(c.Pos()), "the result handed to the caller is taken from the pool exactly when result recycling is off: the caller of "+core.FuncName(f)+" holds a result marked as pooled, which the first Merge into another result releases while it is still in use")
+				}
+			}
+		})
+	}
+	r.Count("api_result_mode_sites", nMode)
+	r.Floor("api_result_mode_sites", 3)
 }
 
 // definitelyPooled: v is (a cell holding) the result of X.Validate where X was built in this activation (or the
